@@ -213,7 +213,12 @@ func (c19) Gen(seed uint64, tier string) *Scenario {
 	}
 	sc.Files = append(sc.Files, FileSpec{Name: "other.csv", Content: "k,v\n1,one\n2,two\n"})
 	sc.Files = append(sc.Files, FileSpec{Name: "none.csv", Content: "k,v\n"})
-	switch r.Intn(14) {
+	switch r.Intn(15) {
+	case 14:
+		// SELECT ... INTO with wildcards over sources with no, one or several columns
+		m.Stmts = []string{"VAR @a; VAR @b;", "SELECT * INTO @a FROM DUAL;", fmt.Sprintf("SELECT * INTO @a FROM %s;", src), fmt.Sprintf("SELECT *, * INTO @a, @b FROM %s LIMIT 1;", src), "SELECT *, * INTO @a, @b FROM DUAL;",
+			"SELECT * INTO @a, @b FROM other WHERE k = 1;", "SELECT * INTO @a FROM none;", "SELECT k INTO @a FROM other;", "ALTER TABLE none DROP (k, v);", "SELECT * INTO @a FROM none;", "SELECT * FROM none;", "SELECT COUNT(*) INTO @a FROM none;",
+			fmt.Sprintf("SELECT c1 INTO @a FROM %s LIMIT 1;", src), "PRINT @a;", "ROLLBACK;"}
 	case 11, 12:
 		// joins of every kind with the loaded table (possibly empty or torn) and with a table that
 		// has no records on either side
